@@ -241,6 +241,7 @@ def build(g, spec, resolved=None, use_how=True, reverse_edges=False):
         return out
 
     pending_aux = []  # (container obj, holder spec)
+    pending_entries = []  # (module obj, code block spec of another module)
 
     def make_module(minfo, ir=None):
         m = minfo["spec"]
@@ -314,7 +315,11 @@ def build(g, spec, resolved=None, use_how=True, reverse_edges=False):
                 make_symbol(minfo, sy, parent=o)
         # fix-ups
         if entry is not None and not entry_done:
-            o.entry_point = objs[id(entry)]
+            if id(entry) in objs:
+                o.entry_point = objs[id(entry)]
+            else:
+                # a code block of a module that is built later
+                pending_entries.append((o, entry))
         if not aux_done:
             pending_aux.append((o, m))
         return o
@@ -387,6 +392,8 @@ def build(g, spec, resolved=None, use_how=True, reverse_edges=False):
             o = make_module(minfo, ir=ir)
             B.module_order.append(o.uuid)
             finish_module(minfo)
+    for o, entry in pending_entries:
+        o.entry_point = objs[id(entry)]
     done = {(id(s), id(t), lab) for s, t, lab in ctor_edges}
     rest = [(s, t, lab, eh) for s, t, lab, eh in edges if (id(s), id(t), lab) not in done]
     upd = []
